@@ -801,6 +801,88 @@ fn equal_generator_cases(rng: &mut R, out: &mut Out, secp: &Secp256k1<All>, roun
 }
 
 // ------------------------------------------------------------------------------------------------
+// peg-in inputs: asset and amount of EVERY input come from `spent_utxos[i]`, never from the input's own
+// peg-in witness
+
+/// turn input `p` into a peg-in input with a well-formed 6-element witness stating (value, asset)
+fn make_pegin(rng: &mut R, tx: &mut Transaction, p: usize, value: u64, asset: AssetId) {
+    tx.input[p].is_pegin = true;
+    let (l1, l2) = (rng.gen_range(60..200), rng.gen_range(80..200));
+    tx.input[p].witness.pegin_witness = vec![
+        value.to_le_bytes().to_vec(),
+        serialize(&asset),
+        gen::bytes(rng, 32),
+        c04::addressable_script(rng).into_bytes(),
+        gen::bytes(rng, l1),
+        gen::bytes(rng, l2),
+    ];
+}
+
+fn pegin_case(rng: &mut R, out: &mut Out, secp: &Secp256k1<All>, seq: usize) {
+    let blinded = seq % 3 == 2;
+    let sh = Shape { n_in: 1 + seq % 3, n_assets: 1 + seq % 2, issuance: seq % 4 == 3, max_outs: 2, zero_opreturn: false, utxo_mode: if blinded { 1 } else { 0 }, conf_issuance: false, seq };
+    let base = c04::base_tx(rng, secp, &sh);
+    let (mut tx, utxos) = if blinded {
+        match c04::lattice_tx(rng, out, secp, &base, seq) { Some(l) => (l.tx, base.utxos.clone()), None => { out.count("pegin.not_built"); return; } }
+    } else {
+        (base.tx.clone(), base.utxos.clone())
+    };
+    let p = seq % tx.input.len();
+    // what the spent output says (explicit ones), and what the witness says
+    let (ua, uv) = (utxos[p].asset.explicit(), utxos[p].value.explicit());
+    let variant = ["agree", "amount_differs", "asset_differs", "both_differ"][(seq / 3) % 4];
+    let base_v = uv.unwrap_or(1000);
+    let base_a = ua.unwrap_or_else(|| gen::asset_id(rng));
+    let other_a = tx.output.iter().filter_map(|o| o.asset.explicit()).find(|a| *a != base_a).unwrap_or_else(|| gen::asset_id(rng));
+    let (wv, wa) = match variant {
+        "agree" => (base_v, base_a),
+        "amount_differs" => (if seq % 2 == 0 { base_v.wrapping_add(1 + seq as u64) } else { base_v / 2 }, base_a),
+        "asset_differs" => (base_v, other_a),
+        _ => (base_v.wrapping_mul(3) | 1, other_a),
+    };
+    make_pegin(rng, &mut tx, p, wv, wa);
+    let parsed = catch_unwind(AssertUnwindSafe(|| tx.input[p].pegin_data().map(|d| (d.value, d.asset))));
+    out.s("pegin_witness_parses", matches!(parsed, Ok(Some(x)) if x == (wv, wa)), || det(&tx, &utxos));
+    let kind = format!("{}.{}.utxo_{}", if blinded { "partially_blinded" } else { "explicit" }, variant, shape(&utxos[p]));
+    out.count(&format!("pegin.{}", kind));
+    // (a) / (c): balanced against the spent outputs: verifies, whatever the witness states
+    let real = decide_case(out, secp, &tx, &utxos);
+    out.s("pegin_tx_balanced_against_spent_outputs_verifies", real == "ok", || format!("{} {} -> {}", kind, det(&tx, &utxos), real));
+    if real != "ok" { return; }
+    // (b): different spent outputs presented at the peg-in position
+    let orig = (&tx, &utxos[..]);
+    let bal = Some("err BalanceCheckFailed".to_string());
+    let mut us = utxos.clone();
+    match utxos[p].value {
+        Value::Explicit(v) => {
+            us[p].value = Value::Explicit(if v == u64::MAX { v - 1 } else { v + 1 });
+            tampered(out, secp, "pegin_utxo_amount", &tx, &us, orig, bal.clone());
+            // the amount the witness states, when it is another one
+            if wv != v && wv != 0 {
+                us[p].value = Value::Explicit(wv);
+                tampered(out, secp, "pegin_utxo_amount_from_witness", &tx, &us, orig, bal.clone());
+            }
+        }
+        _ => {
+            us[p].value = Value::Confidential(gen::commitment(rng));
+            tampered(out, secp, "pegin_utxo_value_commitment", &tx, &us, orig, None);
+        }
+    }
+    let mut us = utxos.clone();
+    us[p].asset = match utxos[p].asset { Asset::Explicit(a) => Asset::Explicit(if wa != a { wa } else { gen::asset_id(rng) }), _ => Asset::Confidential(gen::generator(rng)) };
+    tampered(out, secp, "pegin_utxo_asset", &tx, &us, orig, None);
+    if let (Some(a), Some(v)) = (ua, uv) {
+        if (wa, wv) != (a, v) && wv != 0 {
+            // exactly what the witness states, as the spent output
+            let mut us = utxos.clone();
+            us[p].asset = Asset::Explicit(wa);
+            us[p].value = Value::Explicit(wv);
+            tampered(out, secp, "pegin_utxo_as_the_witness_states", &tx, &us, orig, None);
+        }
+    }
+}
+
+// ------------------------------------------------------------------------------------------------
 // the repository's vectors
 
 fn between<'a>(s: &'a str, after: &str, open: &str, close: char) -> Option<&'a str> {
@@ -900,6 +982,10 @@ pub fn run(rng: &mut R, out: &mut Out) {
     }
     eprintln!("c05: exact proofs {:?} ({} ops)", t0.elapsed(), out.k.len());
     probe_rangeproof64(rng, out, &secp);
+    for seq in 0..(if thorough { 240 } else { 24 }) {
+        pegin_case(rng, out, &secp, seq);
+    }
+    eprintln!("c05: pegin {:?} ({} ops)", t0.elapsed(), out.k.len());
     equal_generator_cases(rng, out, &secp, if thorough { 20 } else { 2 });
     eprintln!("c05: equal generator {:?} ({} ops)", t0.elapsed(), out.k.len());
     // verifying transactions with partially blinded inputs and outputs over the whole lattice (amount-only,
